@@ -32,6 +32,8 @@ pub enum GOp {
     DeletePartitions { n: u32 },
     Send { part: u32, n: u32 },
     Poll { c: usize, count: u32 },
+    /// every joined member polls at the same time
+    PollBurst { count: u32 },
 }
 
 impl GOp {
@@ -45,6 +47,7 @@ impl GOp {
             GOp::DeletePartitions { .. } => "delete_partitions",
             GOp::Send { .. } => "send",
             GOp::Poll { .. } => "poll",
+            GOp::PollBurst { .. } => "poll_burst",
         }
     }
 }
@@ -285,6 +288,7 @@ impl GWorld {
                 Ok(())
             }
             GOp::Poll { c, count } => self.poll(c, count).await,
+            GOp::PollBurst { count } => self.poll_burst(count).await,
         }
     }
 
@@ -294,6 +298,32 @@ impl GWorld {
         }
         let who = Consumer::group(one());
         let r = timed("poll", self.members[c].client.as_ref().unwrap().poll_messages(&one(), &one(), None, &who, &PollingStrategy::next(), count, true)).await?;
+        self.judge_poll(c, count, r)
+    }
+
+    /// all joined members poll concurrently; their shares are disjoint, so the answers are judged one after another
+    async fn poll_burst(&mut self, count: u32) -> R<()> {
+        let joined: Vec<usize> = (0..self.members.len()).filter(|i| self.members[*i].joined && self.members[*i].client.is_some()).collect();
+        if joined.len() < 2 {
+            return Ok(());
+        }
+        let who = Consumer::group(one());
+        let (s, t) = (one(), one());
+        let strat = PollingStrategy::next();
+        let futs = joined.iter().map(|c| {
+            let cl = self.members[*c].client.as_ref().unwrap();
+            let (who, s, t, strat) = (&who, &s, &t, &strat);
+            async move { timed("poll", cl.poll_messages(s, t, None, who, strat, count, true)).await }
+        });
+        let results = futures::future::join_all(futs).await;
+        self.event("concurrent_poll_burst");
+        for (c, r) in joined.into_iter().zip(results) {
+            self.judge_poll(c, count, r?)?;
+        }
+        Ok(())
+    }
+
+    fn judge_poll(&mut self, c: usize, count: u32, r: Result<iggy::models::messages::PolledMessages, iggy::error::IggyError>) -> R<()> {
         let pm = match r {
             Ok(p) => p,
             Err(e) => return Err(gv(self, "valid-refused", "poll", json!({"member": c, "error": e.to_string()}))),
@@ -390,7 +420,7 @@ impl GWorld {
 fn gen(w: &GWorld, rng: &mut Rng) -> GOp {
     let m = w.members.len();
     let c = rng.below(m as u64) as usize;
-    match rng.weighted(&[14, 6, 5, 5, 4, 4, 20, 42]) {
+    match rng.weighted(&[14, 6, 5, 5, 4, 4, 20, 36, 8]) {
         0 => GOp::Join { c },
         1 => GOp::Leave { c },
         2 => GOp::Disconnect { c },
@@ -398,7 +428,8 @@ fn gen(w: &GWorld, rng: &mut Rng) -> GOp {
         4 => GOp::CreatePartitions { n: rng.range(1, 2) as u32 },
         5 => GOp::DeletePartitions { n: rng.range(1, 3) as u32 },
         6 => GOp::Send { part: rng.range(1, 10) as u32, n: rng.range(1, 6) as u32 },
-        _ => GOp::Poll { c, count: *rng.pick(&[1u32, 1, 2, 3, 10]) },
+        7 => GOp::Poll { c, count: *rng.pick(&[1u32, 1, 2, 3, 10]) },
+        _ => GOp::PollBurst { count: *rng.pick(&[1u32, 2, 3, 10]) },
     }
 }
 
